@@ -355,6 +355,24 @@ func genC09TLS(p *Plan, r *RNG) {
 			p.Ops = append(p.Ops, o)
 		}
 	}
+	if r.Chance(1, 4) {
+		// a crowd that connects and never finishes its handshake (silence, or the first bytes of
+		// a ClientHello and no more), and somebody who arrives while they are all there: the
+		// listener serves him as if he were alone
+		p.Flavor += "+stalled-crowd"
+		k := r.PickInt([]int{8, 9, 16, 40})
+		for i := 0; i < k; i++ {
+			id := fmt.Sprintf("s%d", i+1)
+			p.Clients = append(p.Clients, ClientSpec{ID: id, Addr: fmt.Sprintf("10.0.3.%d:%d", 1+i, 4100+i)})
+			p.Ops = append(p.Ops, Op{Actor: id, Kind: "connect", At: gap(int64(r.Range(0, 20)) * ms)})
+			if r.Chance(1, 2) {
+				p.Ops = append(p.Ops, Op{Actor: id, Kind: "raw", At: gap(int64(r.Range(1, 30)) * ms), A: OpArgs{Raw: "160301020001"}})
+			}
+		}
+		p.Clients = append(p.Clients, ClientSpec{ID: "cz", Addr: "10.0.1.77:4777"})
+		p.Ops = append(p.Ops, Op{Actor: "cz", Kind: "tls_connect", At: gap(int64(r.Range(200, 3000)) * ms)})
+		p.Ops = append(p.Ops, Op{Actor: "cz", Kind: "tls_binding", At: gap(int64(r.Range(1000, 2500)) * ms)})
+	}
 	p.Ops = append(p.Ops, Op{Actor: "", Kind: "wait", At: gap(int64(r.PickInt([]int{1, 5, 17})) * sec)})
 	p.QuietNS = 2 * sec
 }
